@@ -88,8 +88,13 @@ Rules(e, n) ==
           THEN {"C13.first-packet-not-connack"} ELSE {})
     \cup (IF \E h \in 1..n : Cardinality({k \in 1..Len(o.wire[K(h)]) : o.wire[K(h)][k] \in {"CONNACK0", "CONNACK1", "CONNACKFAIL89", "CONNACKFAIL03"}}) > 1
           THEN {"C13.second-connack"} ELSE {})
-    \cup (IF o.closer = "returned" /\ \E h \in spawned' : h \in started' /\ ~ObsFin(o, h)
+    \* a handler whose goroutine ran only after Close had disconnected the clients it found (it was not yet counted in
+    \* ClientsWg when Close began to wait) ...
+    \cup (IF o.closer = "returned" /\ \E h \in spawned' : h \in started' /\ h \in lateStart' /\ ~ObsFin(o, h)
           THEN {"C36.handler-alive-after-close"} ELSE {})
+    \* ... and a handler that was already running when Close began to wait: Close returns only after it has finished
+    \cup (IF (o.closer = "returned" \/ o.passed) /\ \E h \in spawned' : h \in started' /\ h \notin lateStart' /\ ~ObsFin(o, h)
+          THEN {"C36.close-returned-before-running-handler-finished"} ELSE {})
     \cup (IF o.closer = "returned" /\ \E h \in spawned' : h \in started' /\ ~ObsClosed(o, h) /\ h \notin dropped'
           THEN {"C36.connection-open-after-close"} ELSE {})
     \cup (IF afterSnap' /\ \E h \in 1..n : Live(o, h) /\ h \notin lateStart' THEN {"C36.live-connection-survives-close"} ELSE {})
